@@ -126,7 +126,7 @@ CLAIMED = {
          'scores: per explored path one QF_BVFP query (float arithmetic first abstracted to fresh values, then bit-precise) decides whether some scores make it raise, assign '
          'a rank outside [1, dim] or exceed group size x base rank; found (now fixed) the leftover-loop over-allocation and a float-cancellation assertion failure; models are '
          'replayed on the real function.',
-    note='One group of n <= 2 (thorough 3) equal-dimension axes, dims <= 6, plus layers with two axes forming 2-3 groups of different dimension; scoring rules and checkpoint I/O stubbed; branch feasibility during exploration is decided by '
+    note='One group of n <= 2 (thorough 3) equal-dimension axes, dims <= 16, plus layers with two axes forming 2-3 groups of different dimension; scoring rules and checkpoint I/O stubbed; branch feasibility during exploration is decided by '
          'concrete witnesses or cvc5 (unknown = explored).',
     design='§3 C17', technique='forking proxy symbolic execution of Python with QF_BVFP path queries (cvc5)'),
 }
